@@ -255,7 +255,7 @@ func checkC13(c *Ctx) {
 		// a good population: no invalid files, at least 2 directories
 		var base *Pop
 		for {
-			base = genPop(r, root)
+			base = genPop(r, root).DropTwins()
 			ok := len(base.Phys) >= 2
 			for _, f := range base.Files {
 				if f.Kind != "valid" {
